@@ -41,7 +41,7 @@ BEHS = ['ok', 'ok_lead0', 'ok_letters', 'nondict', 'none', 'raise', 'raise_empty
 def cases(tier, seed, info):
     rng = random.Random(seed + 18)
     items = []
-    n = 3 if tier == 'quick' else 60
+    n = 3 if tier == 'quick' else 250
     for rep in range(n):
         for kind in ('UD', 'ED'):
             for beh in BEHS + ['prog0', 'prog1', 'prog2', 'prog3', 'prog4', 'prog5', 'builtin', 'shipped_e500', 'shipped_2c00']:
